@@ -46,6 +46,12 @@ func main() {
 			*tier = m.Tier
 		}
 	}
+	if *prop == "all" {
+		// regression tooling only (tools/benignrun.py, tools/seedrun.py): every property's quick
+		// rules in one process over one loaded world; never writes evidence. The registered
+		// commands run one property per process.
+		os.Exit(runAll())
+	}
 	pr := rules.Get(*prop)
 	if pr == nil {
 		fmt.Printf("CHECKER-ERROR unknown property %q (have %v)\n", *prop, rules.IDs())
@@ -122,4 +128,52 @@ func run(pr *rules.PropertyRules, tier, only string, writeEv bool) (code int) {
 		}
 	}
 	return rep.Finish(only, writeEv)
+}
+
+func runAll() int {
+	repo := core.RepoDir()
+	var hz *core.World
+	hzLoader := func() (*core.World, error) {
+		if hz != nil {
+			return hz, nil
+		}
+		w, err := core.Load(filepath.Join(repo, "cmd", "hz"), core.Mod+"/cmd/hz")
+		if err != nil {
+			return nil, err
+		}
+		hz = w
+		return w, nil
+	}
+	w, err := core.Load(repo, core.Mod, "GOOS=linux", "GOARCH=amd64")
+	code := 0
+	for _, id := range rules.IDs() {
+		pr := rules.Get(id)
+		rep := core.NewReport(pr.ID, "quick")
+		rep.Configs = append(rep.Configs, "linux/amd64")
+		func() {
+			defer func() {
+				if r := recover(); r != nil {
+					fmt.Printf("CHECKER-PANIC %v\n%s\n", r, debug.Stack())
+					rep.Fail(pr.ID+".engine", "engine", "-", "the analysis must complete on the current tree", fmt.Sprintf("analyser panic: %v", r))
+				}
+			}()
+			var ww *core.World
+			if !pr.SkipRoot {
+				if err != nil {
+					rep.Fail(pr.ID+".engine", "engine", "-", "the analysis must complete on the current tree", err.Error())
+					return
+				}
+				ww = w
+			}
+			rules.InstallRoles(ww, rep)
+			env := &rules.Env{W: ww, R: rep, Tier: "quick", Config: "linux/amd64", HZ: hzLoader}
+			for _, fn := range pr.Rules {
+				fn(env)
+			}
+		}()
+		if rep.Finish("", false) != 0 {
+			code = 1
+		}
+	}
+	return code
 }
